@@ -1,10 +1,11 @@
 (* C06 - every call terminates and iterators are finite.
    The model is structurally recursive except for the loops the code leaves unbounded, which run on
    local fuel; Out is the image of non-termination.  Proved, over the abstract match function:
-   tokenize with fuel len+3 never runs out, yields at most len+1 tokens and is fused.  Partial:
-   "no engine loop exhausts its fuel" (E2) and the analyze bound are not yet proved; a hang of the
+   tokenize with fuel len+3 never runs out, yields at most len+1 tokens and is fused; a finished
+   analyze iteration has at most 2*len+1 entries and the analyze iterator is fused.  Partial:
+   "no engine loop exhausts its fuel" (E2) is proved on the engine fragment only; a hang of the
    code shows only as a watchdog timeout in the correspondence check. *)
-From RX Require Import Base.Prelude Model.Engine Model.Matcher Model.Api Proofs.ScanFacts Model.Op Proofs.EngineFacts Proofs.EngineCorollaries.
+From RX Require Import Base.Prelude Model.Engine Model.Matcher Model.Api Model.Run Proofs.ScanFacts Proofs.AnalyzeFacts Proofs.AnalyzeIterFacts Model.Op Proofs.EngineFacts Proofs.EngineCorollaries.
 
 Theorem C06_token_bound_partial :
   forall matchf input, good_step matchf input -> forall s,
@@ -27,6 +28,21 @@ Theorem C06_engine_fragment_no_fuel_exhaustion_partial :
     match matches prog input i s with MTrue _ | MFalse _ => True | MOut | MPanic _ => False end.
 Proof. intros prog input i s H1 H2. exact (fragment_no_panic_no_out prog input H1 H2 i s). Qed.
 
+Theorem C06_analyze_bound_partial :
+  forall re input l,
+    good_step (matches (r_prog re) input) input ->
+    (forall pos s s', pos <= length input -> matches (r_prog re) input pos s = MTrue s' -> caps_inside s') ->
+    run_analyze re input = Ok (l, TDone) ->
+    length l <= 2 * length input + 1.
+Proof. intros re input l G GP H. exact (proj2 (run_analyze_text re input l G GP H)). Qed.
+
+Theorem C06_analyze_fused :
+  forall matchf proc input st st',
+    an_next_gen matchf proc input st = Ok (None, st') -> an_next_gen matchf proc input st' = Ok (None, st').
+Proof. exact an_fused. Qed.
+
 Print Assumptions C06_token_bound_partial.
 Print Assumptions C06_fused.
 Print Assumptions C06_engine_fragment_no_fuel_exhaustion_partial.
+Print Assumptions C06_analyze_bound_partial.
+Print Assumptions C06_analyze_fused.
